@@ -390,6 +390,13 @@ def rule_partial(rep: Report, rid="C01.partial") -> None:
                     if pol and (gcond == base or (gcond[0] == "cmp" and gcond[1] in ("Eq", "Gt", "GtE") and gcond[2] == ("call", "len", (base,), ()) and is_const(gcond[3])
                                                   and ((gcond[1] == "Eq" and gcond[3][1] >= 1) or (gcond[1] == "Gt" and gcond[3][1] >= 0) or (gcond[1] == "GtE" and gcond[3][1] >= 1)))):
                         ok, why = True, "guarded"
+                if not ok:
+                    # a composite guard (e.g. the truthiness of ``xs[0] if xs else None``) that can only hold when the sequence is non-empty
+                    try:
+                        if nf.guards_imply([g for g in guards if nf.contains(g[0], lambda x, b_=base: x == b_)], base):
+                            ok, why = True, "guarded"
+                    except Exception:
+                        pass
                 if not ok and base[0] == "call" and base[1] in ("re.split", ".split", ".rsplit", ".partition", ".splitlines") and t[2][1] == 0 and base[1] != ".splitlines":
                     ok, why = True, "split never returns an empty list"
                 if not ok and base[0] in ("tuple", "elem", "param?") or (base[0] == "item" and base[1][0] == "elem"):
